@@ -612,7 +612,7 @@ def rule_o12(repo):
     one.  The children are built with `add_ineqs(<new bound>, *<parent>.original)`: the list handed over is the parent's list as it is.
     Filtered ("the new bound on v supersedes the old ones") the child also loses the bounds on v in the other direction, and a
     witness is returned that violates a constraint that was given."""
-    res = RuleResult('C16.O12', 'every sub-problem of branch and bound keeps all constraints of its parent', floor=2)
+    res = RuleResult('C16.O12', 'every sub-problem of branch and bound keeps all constraints of its parent', floor=1)
     f = repo.func('prover/simplex.py', 'branch_and_bound')
     flow = flow_of(f.node) if 'flow_of' in globals() else None
     from ..flow import flow_of as _flow_of
